@@ -462,6 +462,10 @@ func c19Judge(sc *c19Scenario, res *c19Run, sysName string, when int) {
 			return
 		}
 		res.outcome = "undecodable"
+		if res.exit == "ok" {
+			fail("C19:completed-save-not-loadable", "Save returned nil but Store.Load fails: %v", res.loadErr)
+			return
+		}
 		fail("C19:crash-leaves-undecodable-file", "Store.Load fails after the crash: %v", res.loadErr)
 		return
 	}
